@@ -150,6 +150,24 @@ pub fn model_enc(ctx: &Ctx, subj: &dyn DynSubject, ty: &Ty, v: &Val) -> Result<E
     guard(|| ctx.model.encode(ty, v, subj.std_type_name())).map_err(|p| Fail::new("harness:model-panic", format!("reference encoder panicked: {}", p)))
 }
 
+/// Reference encoding whose positions are only used when the real stream has the prescribed length;
+/// otherwise (a format discrepancy, which C06 reports) position-dependent information is dropped so
+/// that the other checks neither panic nor mis-attribute.
+pub fn model_enc_fit(ctx: &Ctx, subj: &dyn DynSubject, ty: &Ty, v: &Val, real_len: usize, log: &mut CaseLog) -> Result<Encoded, Fail> {
+    let mut e = model_enc(ctx, subj, ty, v)?;
+    if e.bytes.len() != real_len {
+        log.classes.push("stream-length-differs-from-format".into());
+        e.mask = vec![true; real_len];
+        e.bytes.resize(real_len, 0);
+        e.header_len = e.header_len.min(real_len);
+        e.tags.clear();
+        e.lens.clear();
+        e.blocks.clear();
+        e.boundaries.retain(|b| *b < real_len);
+    }
+    Ok(e)
+}
+
 pub fn classify(ctx: &Ctx, ty: &Ty, v: &Val, log: &mut CaseLog) -> vmodel::val::Shape {
     let s = shape(ctx.u, ty, v);
     if s.nonempty_seq {
@@ -245,4 +263,38 @@ pub const BOUNDS_PANICS: [&str; 5] = ["range end index", "range start index", "i
 
 pub fn is_bounds_panic(p: &str) -> bool {
     BOUNDS_PANICS.iter().any(|m| p.contains(m)) && p.contains("epserde/src/")
+}
+
+/// Deterministic sweep of the preceding-content length for the `Pre<A, B>` / `PreFull<B>` wrappers of the
+/// "extra" universe: field `a` takes every length 0..=130, so that the block that follows starts at every
+/// residue of its alignment unit (up to 64). Empty for every other subject, and when replaying.
+pub fn sweep_vals(ctx: &Ctx, ty: &Ty) -> Vec<Val> {
+    use vmodel::ty::Arg;
+    if REPLAY_VAL.with(|c| c.borrow().is_some()) {
+        return vec![];
+    }
+    let Ty::Adt(i, args) = ty else { return vec![] };
+    let def = &ctx.u.adts[*i];
+    if def.name != "Pre" && def.name != "PreFull" {
+        return vec![];
+    }
+    let fields = ctx.u.inst_fields(*i, args, 0);
+    let _ = Arg::Const;
+    // a representative non-trivial value for the other fields
+    let strat = vmodel::val::val_strategy(ctx.u, ty, vmodel::val::GenCfg { max_len: 3, long: false });
+    let base = crate::runner::sample_vals(ctx, &["sweep", &def.name], &strat, 2);
+    let mut out = vec![];
+    for (bi, b) in base.iter().enumerate() {
+        let step = if bi == 0 { 1 } else { 7 };
+        for n in (0..=130usize).step_by(step) {
+            let mut f = b.seq().to_vec();
+            f[0] = match &fields[0] {
+                Ty::String | Ty::BoxStr => Val::Str("x".repeat(n)),
+                Ty::Vec(e) | Ty::BoxSlice(e) => Val::Seq(vec![vmodel::val::min_val(ctx.u, e); n]),
+                _ => return vec![],
+            };
+            out.push(Val::Rec(f));
+        }
+    }
+    out
 }
